@@ -9,6 +9,8 @@ C13 - output encoding is transparent: rounding, saturation and masks only.
 """
 from fractions import Fraction
 
+import warnings
+
 import numpy as np
 import rasterio as rio
 
@@ -159,6 +161,7 @@ def run(run: common.Run):
     quick = run.quick()
     run_direct(run, quick)
     overview_leg(run)
+    shared_profile_leg(run)
     run.rule = ('(a) _convert_array_dtype on 63 adversarial/random float32 values x 7 dtypes x 5-7 nodata settings, every pixel vs '
                 'the model; (b) float32 fusions (data chosen to give negatives, half-integers, > 2^32, +-inf) repeated with '
                 'dtype x nodata x driver (GTiff, PNG) x lossless creation options: every output pixel and mask vs the model conversion '
@@ -270,6 +273,81 @@ def compare_file(case, m, im):
         if not exp_valid and nd not in ('null',) and xs not in ('?',) and ys != xs and not (xs == 'nan' and ys == 'nan'):
             return f'invalid pixel {k}: stored {ys}, expected the nodata value {xs}'
     return None
+
+
+def shared_profile_leg(run):
+    """
+    One output profile used for several runs (one `out_profile` dict passed to successive `process` calls; one command line with
+    several sources): every corrected image has the requested encoding - data type, nodata value, the same stored values - and
+    every parameter image is float32 / NaN, whichever run of the sequence wrote it.
+    """
+    import copy
+    from click.testing import CliRunner
+    from homonim import RasterFuse, cli
+    from homonim.enums import Model
+    tmp = run.tmpdir()
+    rng = run.rng('shared-profile')
+    src, ref = rasters.pair_geometry(rng, 'dyadic', 'auto', max_src=20, margin=(1, 2))
+    s = np.array([[[rng.randint(20, 200) for _ in range(src.w)] for _ in range(src.h)]], float)
+    r = np.array([[[rng.randint(30, 150) for _ in range(ref.w)] for _ in range(ref.h)]], float)
+    sv = np.ones((src.h, src.w), bool)
+    sv[1, 2] = False
+    pair = fusion.write_pair(tmp, 'c13sp', src, ref, s, r, sv, None)
+    for k, (dtype, nodata) in enumerate((('int16', -32768), ('uint8', 0), ('float64', -9999.0))):
+        prof = dict(driver='GTiff', dtype=dtype, nodata=nodata, creation_options=dict(compress='deflate'))
+        want = copy.deepcopy(prof)
+        got = []
+        case = dict(i=5_100_000 + k, op='one out_profile, several runs', dtype=dtype, nodata=nodata)
+        try:
+            with warnings.catch_warnings():
+                warnings.simplefilter('ignore')
+                with RasterFuse(pair.src_path, pair.ref_path) as rf:
+                    for j in range(3):
+                        out = tmp / f'c13sp_{k}_{j}.tif'
+                        rf.process(out, Model.gain, (3, 3), param_filename=tmp / f'c13sp_{k}_{j}_PARAM.tif' if j != 1 else None,
+                                   overwrite=True, out_profile=prof, block_config=dict(threads=1))
+                        with rio.open(out) as ds:
+                            got.append((ds.dtypes[0], ds.nodata, ds.read(1)))
+                        if j != 1:
+                            with rio.open(tmp / f'c13sp_{k}_{j}_PARAM.tif') as ds:
+                                if ds.dtypes[0] != 'float32' or ds.nodata is None or not np.isnan(ds.nodata):
+                                    run.fail(case, f'run {j + 1}: parameter image is {ds.dtypes[0]} / nodata {ds.nodata}, expected float32 / nan',
+                                             signature=dict(kind='param-encoding'))
+        except Exception as ex:
+            run.fail(case, f'raised {type(ex).__name__}: {ex}', signature=dict(kind='raises'))
+            continue
+        run.evaluations += 3
+        run.hist['runs sharing one out_profile'] += 3
+        run.nontrivial.add(('shared-profile', k))
+        for j, (dt, nd, px) in enumerate(got):
+            if dt != dtype or nd != nodata or not np.array_equal(px, got[0][2]):
+                run.fail(case, f'run {j + 1} of 3 with the same out_profile: corrected image is {dt} / nodata {nd} '
+                         f'({int((px != got[0][2]).sum()) if px.shape == got[0][2].shape else "all"} pixels differ from run 1), requested '
+                         f'{dtype} / {nodata}' + ('' if prof == want else f'; the caller\'s dict now reads {prof}'),
+                         signature=dict(kind='shared-profile'))
+                break
+    # the command line: one call, two sources, a parameter image and a non-default encoding
+    d = tmp / 'c13sp_cli'
+    d.mkdir()
+    import shutil
+    for nm in ('a.tif', 'b.tif'):
+        shutil.copy(pair.src_path, d / nm)
+    with warnings.catch_warnings():
+        warnings.simplefilter('ignore')
+        res = CliRunner().invoke(cli.cli, ['fuse', str(d / 'a.tif'), str(d / 'b.tif'), str(pair.ref_path), '-m', 'gain', '-k', '3', '3', '-nbo',
+                                           '-t', '1', '-pi', '--dtype', 'int16', '--nodata', '-32768', '-od', str(d)])
+    case = dict(i=5_100_010, op='one command line, two sources', options='-pi --dtype int16 --nodata -32768')
+    run.evaluations += 1
+    if res.exit_code != 0:
+        run.fail(case, f'exit code {res.exit_code}: {str(res.exception)[:100]}', signature=dict(kind='raises'))
+        return
+    outs = sorted(p_ for p_ in d.glob('*FUSE*.tif') if 'PARAM' not in p_.name)
+    enc = []
+    for p_ in outs:
+        with rio.open(p_) as ds:
+            enc.append((p_.name, ds.dtypes[0], ds.nodata))
+    if len(outs) != 2 or any(e[1] != 'int16' or e[2] != -32768 for e in enc):
+        run.fail(case, f'corrected images of one call: {enc}, requested int16 / -32768 for both', signature=dict(kind='shared-profile'))
 
 
 def overview_leg(run):
